@@ -901,6 +901,8 @@ func injectivityAxioms(text string, ifaceSorts []string) string {
 				continue
 			}
 			fmt.Fprintf(&sb, "(assert (=> (> %s 0) (and (= (dyn %s) %s) (= (%s %s) %s))))\n", args[1], a, args[1], pay, a, args[2])
+			// extensionality: an interface value with this dynamic type and this payload is this value
+			fmt.Fprintf(&sb, "(assert (forall ((qv!x Iface)) (! (=> (and (= (dyn qv!x) %s) (= (%s qv!x) %s)) (= qv!x %s)) :pattern ((%s qv!x)))))\n", args[1], pay, args[2], a, pay)
 		}
 		if ng {
 			fmt.Fprintf(&sb, "(assert (forall ((qv!t Int) (qv!v %s)) (! (=> (> qv!t 0) (and (= (dyn (%s qv!t qv!v)) qv!t) (= (%s (%s qv!t qv!v)) qv!v))) :pattern ((%s qv!t qv!v)))))\n", s, mk, pay, mk, mk)
